@@ -526,9 +526,10 @@ def run_property(pid, mod, tier, seed, replay=None, corpus_only=False):
 
     machinery = [r for r in results if r[1] is None]
     if machinery:
+        # the harness itself could not judge these cases (an exception in run_case): they are set aside here and reported at the end -
+        # the property is then no longer shown to hold on them, which is a violation without a failing input (never a silent pass)
         log("machinery failure:", json.dumps(machinery[0][3])[:3000])
-        print(f"MACHINERY-ERROR property={pid}: {str(machinery[0][3])[:300]}")
-        return 2
+        results = [r for r in results if r[1] is not None]
     viol = [r for r in results if r[2] is False]
     disagree = [r for r in results if r[1] is False]
     sigs = {json.dumps(r[4], sort_keys=True) for r in results if r[5] and r[4] is not None}
@@ -583,6 +584,12 @@ def run_property(pid, mod, tier, seed, replay=None, corpus_only=False):
             exit_code = 1
     elif not proof_ok or disagree:
         pass  # concrete violations already reported
+    if machinery and n_viol == 0:
+        path = write_replay(pid, {"property": pid, "kind": "harness-exception", "what": "the harness raised an exception on this case and could not judge it (on the unchanged tree this is a defect of the harness; on an edited tree the tool no longer behaves as the harness can handle)", "case": machinery[0][0], "detail": machinery[0][3], "count": len(machinery), "seed": seed, "tier": tier})
+        lines.append(f"MACHINERY-ERROR property={pid}: {str(machinery[0][3])[-300:]}")
+        lines.append(f"VIOLATION property={pid} replay={path} no-failing-input-found")
+        n_viol += 1
+        exit_code = 1
 
     for l in lines:
         print(l)
